@@ -17,7 +17,9 @@ const double INF = 1e100;
 struct BoundMenu { double lo, up; const char* name; };
 static const BoundMenu COLB[] =
 {
-   {0, INF, "[0,inf)"}, {-INF, INF, "free"}, {-INF, 1, "(-inf,1]"}, {-1, 2, "[-1,2]"}, {1, 1, "[1,1]"}
+   {0, INF, "[0,inf)"}, {-INF, INF, "free"}, {-INF, 1, "(-inf,1]"}, {-1, 2, "[-1,2]"}, {1, 1, "[1,1]"},
+   // shapes with a zero end point / a shifted one-sided bound (code that branches on isZero(lower) / isZero(upper), e.g. the dual LP builder); appended, existing indices unchanged
+   {-INF, 0, "(-inf,0]"}, {-2, INF, "[-2,inf)"}, {0, 3, "[0,3]"}, {-3, 0, "[-3,0]"}, {0, 0, "[0,0]"}
 };
 static const BoundMenu ROWS[] =
 {
